@@ -4,8 +4,12 @@
   * the `<adj-input-data>` part of `DataParser`  (lib/gnu_gama/xml/dataparser_adj.cpp, the
     generic `init` / `start_tag` / `end_tag` / `add_text` / `white_spaces` of dataparser.cpp)
                                                                                           → `readAdj`
-  as lists of SAX events.  Character data is an abstract type `S` with a `Codec`
-  (`operator<<` / `istringstream >>` are not modelled: the theorem assumes `rd (fmt x) = x`).
+  as lists of SAX events.  Character data is an abstract type `S` with a `Codec`: in this file
+  `operator<<` / `istringstream >>` are parameters.  `C19_dump_roundtrip` (Props/C19.lean) assumes the law of a
+  printer with finitely many digits (`Codec.Printer q`: `rd (fmt x) = q x`, `fmt (q x) = fmt x`; the exact law
+  `rd (fmt x) = x` is `Codec.Lawful`, `C19_dump_roundtrip_exact`); the stream formats are modelled over ℚ by
+  `streamCodec` (`Lemmas/DecimalCodecC19.lean`, `%.pg` through `Model/DecimalCodec.lean`) and the law is proved
+  for it: `C19_stream_codec_printer`, `C19_dump_roundtrip_stream` (Props/C19Codec.lean).  IEEE doubles are in no law.
 
   Data model (`AdjData`): the sparse matrix is its header `rows, cols` and the list of rows
   built by `new_row` / `add_element` (column index, value); the block-diagonal matrix is the
